@@ -1961,7 +1961,14 @@ impl<T: PackedInt> IntVec<T> {
         let value = u64::from_le_bytes(buffer);
         
         // Use BMI2 BEXTR for optimal bit extraction when available
-        Ok(BitOps::extract_bits(value, bit_in_byte as u8, bits))
+        let mut result = BitOps::extract_bits(value, bit_in_byte as u8, bits);
+        // a field that starts inside a byte may reach into a ninth byte
+        let loaded = 64 - bit_in_byte;
+        if (bits as usize) > loaded && byte_offset + 8 < data.len() {
+            let mask = if bits >= 64 { u64::MAX } else { (1u64 << bits) - 1 };
+            result |= ((data[byte_offset + 8] as u64) << loaded) & mask;
+        }
+        Ok(result)
     }
 
     // Decompression methods
